@@ -1,10 +1,28 @@
-"""C06 printf engine: integer, char, string and pointer conversions (igris/util/printf_impl.c and its libc wrappers)."""
+"""C06 printf engine: integer, char, string and pointer conversions (igris/util/printf_impl.c and its libc wrappers).
+
+The check is assembled from three layers, all static (LLVM IR, nothing of igris is executed):
+
+  parser       IR dataflow rules on __printf (R-LOOPVAR, R-CURSOR, R-OPSBITS, R-VAARG, R-PERCENT, R-WIDE) and a symbolic
+               execution of __printf from its entry to the switch over the conversion character (c06_common.ParserRun):
+               how the text of the directive and the '*' arguments determine width, precision and directive word
+               (R-STAR, R-FIELD);  a second execution of the whole function with the formatting routines summarised
+               decides the character count (R-PCACC) and the literal text (R-LITERAL)
+  routines     every formatting routine is executed symbolically in the context of each conversion that reaches it
+               (constant arguments and forced bits read from the call site) and its emission log is compared, case by
+               case, with a closed-form model of ISO C 7.21.6.1 (R-ILAYOUT, R-IMAG, R-DIGITCHR, R-SLAYOUT, R-SBOUND,
+               R-PCACC, R-EMITCOUNT, R-IBUF)
+  wrappers     compat/libc/stdio/sprintf.c and fdprintf.c: callback, terminator, forwarding of the count (R-WRAP)
+"""
+import os
+import multiprocessing
 from c06_common import *
+import c06_wrap
 
 ISO_FLAGS = ['-', '+', ' ', '#', '0']
 ISO_LENGTHS = ['hh', 'h', 'l', 'll', 'j', 'z', 't']
 INT_CONVS = 'diuoxX'
 ISO_BASE = {'d': 10, 'i': 10, 'u': 10, 'o': 8, 'x': 16, 'X': 16, 'p': 16}
+INT_MAX = (1 << 31) - 1
 # LP64 (the IR is produced for x86-64 Linux): effective width / signedness of the fetched argument
 VA_EXPECT_INT = {
     'di': {'hh': (32, 8, 'sext'), 'h': (32, 16, 'sext'), 'l': (64, 64, None), 'll': (64, 64, None),
@@ -14,6 +32,19 @@ VA_EXPECT_INT = {
 }
 
 
+class Rec:
+    """instance recorder used inside worker processes (replayed into the report by the parent)"""
+
+    def __init__(self):
+        self.items = []
+
+    def inst(self, rule, function, key, ok, where='', detail=None, nontrivial=True, fact=None):
+        self.items.append((rule, function, key, bool(ok), where, detail, nontrivial, fact))
+
+
+# ----------------------------------------------------------------------------------------------
+# parser tables
+# ----------------------------------------------------------------------------------------------
 def opsbits_rule(rep, rule, mod, T):
     f = mod.fn('__printf')
     w = where_fn(f)
@@ -54,15 +85,18 @@ def opsbits_rule(rep, rule, mod, T):
              % (T['clear_prec'], T['prec']))
 
 
-def vaarg_rule(rep, rule, mod, T, sites):
+def vaarg_rule(rep, rule, mod, T, D, sites):
+    f = mod.fn('__printf')
     seen = set()
+    by_conv = {}
     for s in sites:
+        for c in s['convs']:
+            by_conv.setdefault(c, set()).add(s['load'].id)
         convs = ''.join(sorted(s['convs']))
         w = s['load'].where()
         if not s['convs']:
             ok = s['kind'] == 'int' and s['bits'] == 32 and s['eff_bits'] == 32
-            key = "'*' field fetches an int"
-            n = sum(1 for k in seen if k.startswith("'*'"))
+            n = sum(1 for k in seen if isinstance(k, str) and k.startswith("'*'"))
             key = "'*' field #%d fetches an int" % (n + 1)
             seen.add(key)
             rep.inst(rule, '__printf', key, ok, w, None if ok else 'fetches %d bits of kind %s' % (s['bits'], s['kind']))
@@ -92,13 +126,336 @@ def vaarg_rule(rep, rule, mod, T, sites):
     for grp, exp in VA_EXPECT_INT.items():
         for ln in exp:
             if (grp, ln) not in seen:
-                rep.inst(rule, '__printf', '%%%s with length %s' % (grp, ln), False, where_fn(mod.fn('__printf')),
+                rep.inst(rule, '__printf', '%%%s with length %s' % (grp, ln), False, where_fn(f),
                          'no argument fetch found for conversions %s with length %s' % (grp, ln))
     for c in 'csp':
         if c not in seen:
-            rep.inst(rule, '__printf', '%%%s argument fetch' % c, False, where_fn(mod.fn('__printf')), 'no argument fetch found')
+            rep.inst(rule, '__printf', '%%%s argument fetch' % c, False, where_fn(f), 'no argument fetch found')
+    # the value handed to the routine is made of the fetches of this conversion and of nothing else
+    for conv in 'diuoxXp':
+        e = D['table'].get(conv)
+        if e is None or len(e['calls']) != 1:
+            continue
+        c = e['calls'][0]
+        g = mod.fn(c['callee'])
+        vpos = [n for n, p in enumerate(g.params) if p['ty'].get('k') == 'int' and p['ty'].get('bits') == 64]
+        if len(vpos) != 1:
+            rep.inst(rule, '__printf', '%%%s: value argument' % conv, False, c['call'].where(),
+                     '%s has %d 64-bit integer parameters, expected the value only' % (c['callee'], len(vpos)))
+            continue
+        srcs = value_sources(f, c['call'].ops[vpos[0]])
+        loads = set(s[1] for s in srcs if s[0] == 'load')
+        other = [s for s in srcs if s[0] != 'load']
+        ok = not other and loads and loads <= by_conv.get(conv, set())
+        rep.inst(rule, '__printf', '%%%s: the value passed on is the fetched argument' % conv, ok, c['call'].where(),
+                 None if ok else 'the value argument of %s also depends on %r' % (c['callee'], other or sorted(loads)))
+    text_arg_rule(rep, rule, mod, D, by_conv)
 
 
+def text_arg_rule(rep, rule, mod, D, by_conv):
+    """%s: the text handed to the routine is the fetched pointer (a constant string may stand in for a null pointer);
+    %c: it is a local buffer whose first byte is the fetched character"""
+    f = mod.fn('__printf')
+    for conv in 'sc':
+        e = D['table'].get(conv)
+        if e is None or len(e['calls']) != 1:
+            continue
+        c = e['calls'][0]
+        g = mod.fn(c['callee'])
+        ppos = [n for n, p in enumerate(g.params) if n >= 2 and p['ty'].get('k') == 'ptr']
+        if len(ppos) != 1:
+            rep.inst(rule, '__printf', '%%%s: text argument' % conv, False, c['call'].where(),
+                     '%s has %d pointer parameters besides the callback pair' % (c['callee'], len(ppos)))
+            continue
+        v = c['call'].ops[ppos[0]]
+        if conv == 's':
+            srcs = value_sources(f, v)
+            loads = set(s[1] for s in srcs if s[0] == 'load')
+            other = [s for s in srcs if s[0] != 'load' and not (s[0] == 'other' and s[1] in ('cexpr', 'global'))]
+            ok = not other and loads and loads <= by_conv.get('s', set())
+            rep.inst(rule, '__printf', '%s: the text passed on is the fetched pointer', ok, c['call'].where(),
+                     None if ok else 'the text argument of %s depends on %r' % (c['callee'], other or sorted(loads)))
+        else:
+            root = alloca_root(f, v)
+            ok, detail = False, 'the text argument of %s is not a local buffer' % c['callee']
+            if root is not None:
+                sts = [i for i in f.all_insts() if i.op == 'store' and i.d.get('store_size') == 1 and
+                       alloca_root(f, i.ops[1]) is not None and alloca_root(f, i.ops[1])[0] is root[0] and
+                       alloca_root(f, i.ops[1])[1] == root[1] and f.dominates(i, c['call'])]
+                detail = 'no single store of the character into the buffer before the call'
+                if len(sts) == 1:
+                    srcs = value_sources(f, sts[0].ops[0])
+                    loads = set(s[1] for s in srcs if s[0] == 'load')
+                    ok = all(s[0] == 'load' for s in srcs) and loads and loads <= by_conv.get('c', set())
+                    detail = 'the byte stored into the buffer depends on %r' % (sorted(srcs, key=repr),)
+            rep.inst(rule, '__printf', '%c: the buffer passed on starts with the fetched character', ok, c['call'].where(),
+                     None if ok else detail)
+
+
+def alloca_root(f, v):
+    """(alloca inst, constant byte offset) the pointer v addresses, else None"""
+    off = 0
+    for _ in range(8):
+        i = f.inst_of(v)
+        if i is None:
+            return None
+        if i.op == 'alloca':
+            return (i, off)
+        if i.op == 'bitcast':
+            v = i.ops[0]
+        elif i.op == 'getelementptr':
+            st = gep_const_step(i)
+            if st is None:
+                return None
+            off += st
+            v = i.ops[0]
+        else:
+            return None
+    return None
+
+
+def reaching_store(f, ld):
+    """the store that defines what load ld reads from a local object: the last one before it in its block, else the last one
+    in the nearest dominating block that has one (same object, offset and size), provided no other block between can store"""
+    root = alloca_root(f, ld.ops[0])
+    if root is None:
+        return None
+    size = ld.ty.get('size')
+    stores = [i for i in f.all_insts() if i.op == 'store' and alloca_root(f, i.ops[1]) is not None and
+              alloca_root(f, i.ops[1])[0] is root[0]]
+    same = [i for i in stores if alloca_root(f, i.ops[1])[1] == root[1] and i.d.get('store_size') == size]
+    before = [i for i in same if i.block is ld.block and i.id < ld.id]
+    if before:
+        return before[-1]
+    b = f.idom.get(ld.block)
+    while b is not None and b != '<root>':
+        here = [i for i in same if i.block is b]
+        if here:
+            return here[-1]
+        nb = f.idom.get(b)
+        if nb is b:
+            break
+        b = nb
+    return None
+
+
+def value_sources(f, v, seen=None):
+    """leaf_sources that also looks through pointer/integer casts and through a local object written once on the way"""
+    seen = seen if seen is not None else set()
+    out = set()
+    i = f.inst_of(v)
+    if i is not None and i.op in ('ptrtoint', 'inttoptr', 'bitcast'):
+        return value_sources(f, i.ops[0], seen)
+    for s in leaf_sources(f, v):
+        if s[0] == 'load' and s[1] not in seen:
+            seen.add(s[1])
+            ld = f.insts[s[1]]
+            st = reaching_store(f, ld)
+            if st is not None:
+                out |= value_sources(f, st.ops[0], seen)
+                continue
+        if s[0] == 'other' and len(s) == 3 and s[1] in ('ptrtoint', 'inttoptr', 'bitcast'):
+            out |= value_sources(f, f.insts[s[2]].ops[0], seen)
+            continue
+        out.add(s)
+    return out
+
+
+def percent_rule(rep, rule, mod, D):
+    f = mod.fn('__printf')
+    e = D['table'].get('%')
+    if e is None:
+        rep.inst(rule, '__printf', "'%%' is a conversion", False, where_fn(f), "the switch has no case for '%'")
+        return
+    h = e['handler']
+    ok = len(h) == 1 and h[0]['arg'] == ord('%') and not h[0]['in_loop'] and not e['calls']
+    rep.inst(rule, '__printf', "%% hands one '%' to the callback", ok, h[0]['call'].where() if h else where_fn(f),
+             None if ok else 'the code selected by %%%% makes %d callback call(s) with character %r'
+             % (len(h), h[0]['arg'] if h else None))
+
+
+def wide_rule(rep, rule, mod, T, D):
+    """%ls: ISO C converts a wchar_t string; an implementation that never looks at the l bit on the %s path cannot"""
+    f = mod.fn('__printf')
+    lbit = T['len'].get('l')
+    e = D['table'].get('s')
+    if lbit is None or e is None:
+        return
+    region = set(case_region(f, f.bmap[e['block']], D['loop']))
+    fns = [(f, region)] + [(mod.fn(c['callee']), None) for c in e['calls']]
+    tested = False
+    for (g, blocks) in fns:
+        for i in g.all_insts():
+            if blocks is not None and i.block not in blocks:
+                continue
+            if i.op == 'and' and any(o.k == 'ci' and o.ival == lbit for o in i.ops):
+                tested = True
+    rep.inst(rule, '__printf', '%ls: the l modifier (wchar_t string) is honoured', tested,
+             e['calls'][0]['call'].where() if e['calls'] else where_fn(f),
+             None if tested else 'the code selected by %s never tests the l bit: a wchar_t string is read as a char string '
+             '(ISO C 7.21.6.1p8 requires conversion by wcrtomb)')
+
+
+# ----------------------------------------------------------------------------------------------
+# parser facts: '*' fields, literal fields, what the routines may assume
+# ----------------------------------------------------------------------------------------------
+def parser_rules(rep, mod, T, D):
+    """R-STAR, R-FIELD; returns (facts, ParserRun): facts = {'w>=0','p>=0','p==0 without precision'} proven on every path"""
+    pr = ParserRun(mod, T, D)
+    f = pr.f
+    sx = pr.sx
+    W, PR = pr.W, pr.PR
+    aw, ap = D['width_atoi'], D['prec_atoi']
+    wv = lambda s: s.env.get(W)
+    pv = lambda s: s.env.get(PR)
+
+    def eqs(s, a, b):
+        return isinstance(a, Lin) and isinstance(b, Lin) and s.cons.entails_eq(a, b)
+
+    def bit_is(s, n, val):
+        b = pr.bit(s, n) if n is not None else None
+        return b is not None and s.cons.entails_eq(b, val)
+    res = {}
+
+    def note(rule, key, ok, where, detail):
+        k = (rule, key)
+        cur = res.get(k)
+        if cur is None:
+            res[k] = [ok, where, None if ok else detail, 1]
+        else:
+            cur[3] += 1
+            if cur[0] and not ok:
+                cur[0], cur[2] = False, detail
+    facts = {'w>=0': True, 'p>=0': True, 'p==0 without precision': pr.pbit is not None}
+    for s in pr.states:
+        w, p = wv(s), pv(s)
+        if not (isinstance(w, Lin) and s.cons.entails_le(0, w)):
+            facts['w>=0'] = False
+        if not (isinstance(p, Lin) and s.cons.entails_le(0, p)):
+            facts['p>=0'] = False
+        if pr.pbit is not None:
+            b = pr.bit(s, pr.pbit)
+            if b is None:
+                facts['p==0 without precision'] = False
+            else:
+                for (s2, t) in pr.split(s, ('cmp', 'sge', b, Lin(1))):
+                    if not t and not eqs(s2, p, Lin(0)):
+                        facts['p==0 without precision'] = False
+        # '*' width
+        for ld in pr.star['w']:
+            x = s.env.get(('i', ld))
+            if not isinstance(x, Lin) or aw.id in [k[1] for k in s.env if k == ('i', aw.id)]:
+                continue
+            where = f.insts[ld].where()
+            for (s2, t) in pr.split(s, ('cmp', 'sge', x, Lin(0))):
+                if t:
+                    ok = eqs(s2, wv(s2), x)
+                    note('R-STAR', "'*' width: a non-negative argument is the width", ok, where,
+                         'for an argument n >= 0 the routines receive width %r' % (wv(s2),))
+                else:
+                    ok = eqs(s2, wv(s2), -x) and bit_is(s2, pr.lbit, 1)
+                    note('R-STAR', "'*' width: a negative argument means the '-' flag and width -n", ok, where,
+                         "for an argument n < 0 the routines receive width %r and '-' flag %r; ISO C 7.21.6.1p5: a negative "
+                         'field width argument is taken as a - flag followed by a positive field width'
+                         % (wv(s2), pr.bit(s2, pr.lbit) if pr.lbit is not None else None))
+        # '*' precision
+        for ld in pr.star['p']:
+            x = s.env.get(('i', ld))
+            if not isinstance(x, Lin) or ('i', ap.id) in s.env:
+                continue
+            where = f.insts[ld].where()
+            for (s2, t) in pr.split(s, ('cmp', 'sge', x, Lin(0))):
+                if t:
+                    ok = eqs(s2, pv(s2), x) and bit_is(s2, pr.pbit, 1)
+                    note('R-STAR', "'*' precision: a non-negative argument is the precision", ok, where,
+                         'for an argument n >= 0 the routines receive precision %r, precision bit %r'
+                         % (pv(s2), pr.bit(s2, pr.pbit) if pr.pbit is not None else None))
+                else:
+                    ok = bit_is(s2, pr.pbit, 0)
+                    note('R-STAR', "'*' precision: a negative argument is taken as no precision", ok, where,
+                         'for an argument n < 0 the precision bit is %r' % (pr.bit(s2, pr.pbit) if pr.pbit is not None else None,))
+        # literal fields
+        if ('i', aw.id) in s.env and not any(('i', ld) in s.env for ld in pr.star['w']):
+            r = s.env[('i', aw.id)]
+            ok = eqs(s, w, r)
+            note('R-FIELD', 'a literal width is the number written in the directive', ok, aw.where(),
+                 'the routines receive width %r, the number in the format is %r' % (w, r))
+        ld = T.get('prec_load')
+        byte = s.env.get(('i', ld.id)) if ld is not None else None
+        if isinstance(byte, Lin) and pr.pbit is not None:
+            for (s2, t) in pr.split(s, ('cmp', 'eq', byte, Lin(ord('.')))):
+                star = [x for x in (s2.env.get(('i', l)) for l in pr.star['p']) if isinstance(x, Lin)]
+                if not t:
+                    ok = bit_is(s2, pr.pbit, 0)
+                    note('R-FIELD', "no '.' after the width: the precision bit is clear", ok, ld.where(),
+                         'the precision bit is %r in a directive without precision' % (pr.bit(s2, pr.pbit),))
+                elif ('i', ap.id) in s2.env and not star:
+                    r = s2.env[('i', ap.id)]
+                    ok = eqs(s2, pv(s2), r) and bit_is(s2, pr.pbit, 1)
+                    note('R-FIELD', "'.' and digits: the precision is the number written and the precision bit is set", ok,
+                         ap.where(), 'the routines receive precision %r (bit %r), the number in the format is %r'
+                         % (pv(s2), pr.bit(s2, pr.pbit), r))
+    for (rule, key), (ok, where, detail, n) in res.items():
+        rep.inst(rule, '__printf', key, ok, where, detail, fact={'paths': n})
+    for k in sorted(facts):
+        if facts[k]:
+            rep.inst('R-PARSE', '__printf', 'every path to the formatting routines establishes %s' % k, True, where_fn(f),
+                     fact={'paths': len(pr.states)})
+    return facts, pr
+
+
+def literal_rule(rep, rule, mod, D, pr):
+    """a character other than '%' costs one callback with that character and moves the cursor by one"""
+    f = pr.f
+    sx = pr.sx
+    H = D['loop']['header']
+    latch_states = sx.iter_states.get(('__printf', H.name), [])
+    cur = [i for i in H.insts if i.op == 'phi' and i.ty.get('k') == 'ptr' and
+           any(v.k == 'arg' and v.argno == FORMAT for (bb, v) in i.incoming)]
+    if len(cur) != 1:
+        raise AnalysisBroken('__printf: the format cursor of the directive loop was not found')
+    cur = cur[0]
+    n = 0
+    for T_ in latch_states:
+        segs = [s for s in T_.segs if s[0] != 'loop']
+        h = T_.env.get(('i', cur.id))
+        nxt = None
+        for (bb, v) in cur.incoming:
+            if f.bmap[bb] in D['loop']['latches']:
+                nxt = sx.val(T_, v, f)
+        ok = (len(segs) == 1 and segs[0][0] == 'm' and isinstance(h, P) and segs[0][1] == h and segs[0][2] == Lin(1) and
+              isinstance(nxt, P) and nxt.base == h.base and T_.cons.entails_eq(nxt.off, h.off + 1))
+        n += 1
+        rep.inst(rule, '__printf', 'ordinary character: one callback with that character, cursor + 1', ok,
+                 H.term.where(), None if ok else 'on the path of an ordinary character the callbacks are %r and the cursor '
+                 'moves from %r to %r' % (segs, h, nxt))
+    if n == 0:
+        rep.inst(rule, '__printf', 'ordinary character: one callback with that character, cursor + 1', False,
+                 H.term.where(), 'no path of the directive loop returns to its head without entering a directive')
+
+
+def toplevel_rule(rep, mod, T, D):
+    """R-PCACC for __printf: the whole function with the formatting routines summarised by 'returns the number of callbacks
+    it made' (which R-PCACC decides for each routine, print_f excepted: property C13)"""
+    f = mod.fn('__printf')
+    ems = emitter_functions(mod)
+    sx = SX(mod, handler_arg=HANDLER, emitters=list(ems), fmt_base=FMT, join_at=6, static_exit=static_exit_loop,
+            pure_by_args=CLASSIFIERS)
+    st = sx.start(f, fmt_args())
+    rets = sx.run_function(f, st)
+    bad = [(s, rv) for (s, rv) in rets if not (isinstance(rv, Lin) and s.cons.entails_eq(rv, s.E))]
+    ok = bool(rets) and not bad
+    rep.inst('R-PCACC', '__printf', 'return value == number of output callbacks', ok, where_fn(f),
+             None if ok else ('on some path __printf returns %r after %r callback calls' % (bad[0][1], bad[0][0].E)
+                              if bad else 'no path reaches the return'))
+    for o in sx.obligs.values():
+        if o['kind'] == 'count-nonneg':
+            rep.inst('R-EMITCOUNT', o['fn'], o['key'], o['ok'], o['where'], o['detail'])
+
+
+# ----------------------------------------------------------------------------------------------
+# formatting routines in the context of one conversion
+# ----------------------------------------------------------------------------------------------
 def call_context(mod, D, T, conv):
     """executor arguments for the routine called for conversion conv: [(value per parameter)], roles, forced bits"""
     e = D['table'].get(conv)
@@ -145,61 +502,73 @@ def call_context(mod, D, T, conv):
         m = 1 << i
         if m not in settable:
             bits.append((m, 1 if c['extra_bits'] & m else 0))
+        elif c['extra_bits'] & m:
+            bits.append((m, 1))
     return {'callee': c['callee'], 'args': args, 'roles': roles, 'bits': bits, 'call': c}
 
 
-_layout_cache = {}
+def ctxt_key(ctxt):
+    return (ctxt['callee'], tuple(vkey(a) for a in ctxt['args']), tuple(ctxt['bits']))
 
 
-def layout_for(mod, T, ctxt, pre, cstr=None, join_at=None):
-    key = (ctxt['callee'], tuple(vkey(a) for a in ctxt['args']), tuple(ctxt['bits']), tuple(repr(p) for p in pre))
-    lay = _layout_cache.get(key)
-    if lay is None:
-        lay = _layout_cache[key] = Layout(mod, T, ctxt['callee'], ctxt['args'], pre=pre, bits=ctxt['bits'], cstr=cstr,
-                                          join_at=join_at)
-    return lay
+def fact_pre(T, facts, roles):
+    """constraints the routines may assume: only what the parser rules proved on every path"""
+    w, p = Lin.sym('w'), Lin.sym('p')
+    pre = []
+    if facts.get('w>=0') and 'w' in roles:
+        pre.append(-w)
+    if 'p' in roles:
+        if facts.get('p>=0'):
+            pre.append(-p)
+        if facts.get('p==0 without precision') and T['prec']:
+            b = Lin.sym(('ops', 'bit', T['prec'].bit_length() - 1))
+            pre += [-b, b - 1, p - b * INT_MAX]
+    return pre
 
 
-def int_layout_rule(rep, rules, mod, T, D, conv):
-    """R-ILAYOUT (+ R-IMAG, R-PCACC, R-EMITCOUNT, R-IBUF) for one integer conversion"""
-    R_LAY, R_MAG = rules
-    top = mod.fn('__printf')
+def int_layout(mod, T, D, facts, convs):
+    """R-ILAYOUT, R-IMAG, R-DIGITCHR, R-PCACC, R-EMITCOUNT, R-IBUF for the integer conversions in convs, which all reach
+    the same routine with the same constant arguments"""
+    rep = Rec()
+    conv = convs[0]
     ctxt = call_context(mod, D, T, conv)
-    if ctxt is None:
-        rep.inst(R_LAY, '__printf', '%%%s calls one formatting routine' % conv, False, where_fn(top),
-                 'conversion %r does not lead to exactly one call of a formatting routine' % conv)
-        return None
     roles = ctxt['roles']
     w, p, u = Lin.sym('w'), Lin.sym('p'), Lin.sym('u')
-    pre = [-w, -p]
+    pre = fact_pre(T, facts, roles)
     if conv not in 'di':
         pre.append(-u)
-    if 'p' not in roles:
-        # the precision is a constant of the call (pointer conversion): the model reads it from the call
-        pconst = [v for n, v in roles.get('const', {}).items()
-                  if is_const_precision(mod, ctxt, n)]
-        p = Lin(pconst[0]) if pconst else Lin(0)
-    lay = layout_for(mod, T, ctxt, pre)
+    ptr = conv == 'p'
+    if 'w' not in roles or 'u' not in roles or ('p' not in roles and not ptr):
+        for c in convs:
+            rep.inst('R-ILAYOUT', ctxt['callee'], '%%%s: width, precision and value reach the routine' % c, False,
+                     ctxt['call']['call'].where(), 'the call passes roles %r' % sorted(k for k in roles if k != 'const'))
+        return rep.items
+    lay = Layout(mod, T, ctxt['callee'], ctxt['args'], pre=pre, bits=ctxt['bits'])
     sx = lay.sx
     fl = Flags(T)
     f = lay.f
-    res = {}
-    mag = {}
+    res, mag = {}, {}
     relevant = ['-', '0', '.'] + (['+', ' '] if conv in 'di' else []) + (['#'] if conv in 'oxX' else [])
+    if ptr:
+        relevant = ['-']
     for s, rv in lay.rets:
         dn = [n for n in s.notes if n[0] == 'digits']
         ran = len(dn) == 1
         if len(dn) > 1:
-            raise AnalysisBroken('print_i: more than one digit loop on a path')
+            raise AnalysisBroken('%s: more than one digit loop on a path' % f.name)
         p0, nd, u0, d = (dn[0][2], dn[0][3], dn[0][4], dn[0][5]) if ran else (None, Lin(0), None, None)
 
         def fn(ctx):
-            segs, err = model_int(ctx, fl, conv, w, p, u, nd, ran)
-            key = '%%%s with flags [%s]' % (conv, ''.join(c for c in relevant if ctx.flags.get(c)))
+            got = norm_segments(sx, ctx, s.segs, digit=(p0.base, p0.off - nd) if ran else None)
+            pz = None
+            if ptr:
+                zs = [g for g in got if g[0] == 'c' and g[1] == 48]
+                pz = zs[0][2] if len(zs) == 1 else Lin(0)
+            segs, err = model_int(ctx, fl, conv, w, p, u, nd, ran, pzeros=pz)
+            key = 'with flags [%s]' % ''.join(c for c in relevant if ctx.flags.get(c))
             if err:
                 return (key, False, err, None)
             want = clean_model(ctx, segs)
-            got = norm_segments(sx, ctx, s.segs, digit=(p0.base, p0.off - nd) if ran else None)
             ok = same_segments(ctx, got, want)
             m = None
             if ran:
@@ -220,19 +589,130 @@ def int_layout_rule(rep, rules, mod, T, D, conv):
                                '(a narrower intermediate type truncates it)' % (m[3], 'negation' if m[2] else 'value'))
                 k3 = 'digit base'
                 if k3 not in mag or (mag[k3][0] and not m[1]):
-                    mag[k3] = (m[1], None if m[1] else 'digits are produced in base %r, %%%s needs base %d' % (m[4], conv, ISO_BASE[conv]))
+                    mag[k3] = (m[1], None if m[1] else 'digits are produced in base %r, the conversion needs base %d'
+                               % (m[4], ISO_BASE[conv]))
+    for c in convs:
+        for key in sorted(res):
+            ok, detail = res[key]
+            rep.inst('R-ILAYOUT', ctxt['callee'], '%%%s %s' % (c, key), ok, where_fn(f), detail)
+        for k2 in sorted(mag):
+            ok, detail = mag[k2]
+            rep.inst('R-IMAG', ctxt['callee'], '%%%s: %s' % (c, k2), ok, where_fn(f), detail)
+    digitchr_rule(rep, 'R-DIGITCHR', lay, T, convs)
+    pcacc_rule(rep, 'R-PCACC', lay, '/'.join(convs))
+    import_obligs(rep, sx, {'count-nonneg': 'R-EMITCOUNT', 'digit-store': 'R-IBUF', 'emit-read': 'R-IBUF',
+                            'local-store': 'R-IBUF'})
+    return rep.items
+
+
+def digitchr_rule(rep, rule, lay, T, convs):
+    """the character stored for remainder r is '0'+r below ten, and the letter ('a' or 'A' by the upper-case bit) + r - 10"""
+    sx = lay.sx
+    ub = Lin.sym(('ops', 'bit', T['upper'].bit_length() - 1)) if T['upper'] else None
+    res = {}
+    for (fname, v, rem, s, dkey) in sx.digit_probes:
+        if not isinstance(rem, Lin) or not isinstance(v, Lin):
+            res['digit characters are a function of the remainder'] = (False, 'stored %r for remainder %r' % (v, rem), fname)
+            continue
+        for (s2, small) in sx.branch(s.fork(), ('cmp', 'sle', rem, Lin(9))):
+            if small:
+                ok = s2.cons.entails_eq(v, rem + 48)
+                k = "remainder below ten -> '0' + r"
+                if k not in res or (res[k][0] and not ok):
+                    res[k] = (ok, None if ok else 'the character stored for a remainder r <= 9 is %r' % (v,), fname)
+                continue
+            for up in (0, 1):
+                s3 = s2.fork()
+                if ub is not None:
+                    s3.cons.add_eq(ub, up)
+                    if not sx.feasible(s3, set(ub.t.keys())):
+                        continue
+                elif up:
+                    continue
+                want = rem - 10 + (ord('A') if up else ord('a'))
+                ok = s3.cons.entails_eq(v, want)
+                k = "remainder ten and above -> '%s' + r - 10" % ('A' if up else 'a')
+                if k not in res or (res[k][0] and not ok):
+                    res[k] = (ok, None if ok else 'the character stored for a remainder r >= 10 is %r' % (v,), fname)
+    for c in convs:
+        for k in sorted(res):
+            ok, detail, fname = res[k]
+            rep.inst(rule, fname, '%%%s: %s' % (c, k), ok, where_fn(lay.f), detail)
+
+
+def str_layout(mod, T, D, facts, conv):
+    """R-SLAYOUT, R-SBOUND, R-PCACC, R-EMITCOUNT for %s (characters of the argument, at most precision, padded) and %c
+    (exactly one character, padded)"""
+    rep = Rec()
+    ctxt = call_context(mod, D, T, conv)
+    top = mod.fn('__printf')
+    if ctxt is None:
+        rep.inst('R-SLAYOUT', '__printf', '%%%s calls one formatting routine' % conv, False, where_fn(top),
+                 'conversion %r does not lead to exactly one call of a formatting routine' % conv)
+        return rep.items
+    roles = ctxt['roles']
+    if 'w' not in roles or 'str' not in roles:
+        rep.inst('R-SLAYOUT', ctxt['callee'], '%%%s: width and text reach the routine' % conv, False,
+                 ctxt['call']['call'].where(), 'the call passes roles %r' % sorted(k for k in roles if k != 'const'))
+        return rep.items
+    w, p, n = Lin.sym('w'), Lin.sym('p'), Lin.sym('slen')
+    pre = fact_pre(T, facts, roles) + [-n]
+    if conv == 'c':
+        # the text is the two-byte buffer {c, 0}: its string length is 0 (c is the NUL character) or 1
+        pre.append(n - 1)
+    base = ('arg', roles['str'])
+    lay = Layout(mod, T, ctxt['callee'], ctxt['args'], pre=pre, bits=ctxt['bits'], cstr={base: 'slen'})
+    sx = lay.sx
+    fl = Flags(T)
+    f = lay.f
+    res, bound = {}, {}
+    pbit = Lin.sym(('ops', 'bit', T['prec'].bit_length() - 1)) if T['prec'] else None
+    for s, rv in lay.rets:
+        def fn(ctx):
+            G = fl.get(ctx, '.') if T['prec'] else False
+            if conv == 'c' and G:
+                return None         # a precision with %c is undefined in ISO C
+            segs, err = model_str(ctx, fl, w, p, n, count_is=1 if conv == 'c' else None)
+            key = '%%%s with flags [%s]' % (conv, ''.join(c for c in ['-', '.'] if ctx.flags.get(c)))
+            want = clean_model(ctx, segs)
+            got = norm_segments(sx, ctx, s.segs, strarg=base)
+            ok = same_segments(ctx, got, want)
+            return (key, ok, None if ok else 'case {%s}: emitted %s, ISO C requires %s'
+                    % (', '.join(ctx.desc), show_segments(got), show_segments(want)))
+        for ctx, (key, ok, detail) in enum_cases(sx, s, fn):
+            cur = res.get(key)
+            if cur is None or (cur[0] and not ok):
+                res[key] = (ok, detail)
+        if conv == 's':
+            for ev in s.events:
+                if ev[0] != 'scan' or ev[2] != vkey(P(base)):
+                    continue
+                if ev[1] == 'strlen':
+                    ok = pbit is not None and s.cons.entails_eq(pbit, 0)
+                    k = 'no unbounded scan of the argument when a precision is given'
+                    d = 'strlen() of the argument on a path where the directive may carry a precision: the scan runs to the ' \
+                        'terminator, which need not exist within the precision'
+                elif ev[1] == 'strnlen':
+                    lim = ev[5]
+                    ok = (pbit is not None and s.cons.entails_eq(pbit, 0)) or \
+                        (isinstance(lim, Lin) and s.cons.entails_le(lim, p))
+                    k = 'a bounded scan of the argument is bounded by the precision'
+                    d = 'strnlen() with bound %r, the precision is %r' % (lim, p)
+                else:
+                    raise AnalysisBroken('%s: the string argument is handed to %s, whose reading extent is not modelled'
+                                         % (ev[3], ev[1]))
+                cur = bound.get(k)
+                if cur is None or (cur[0] and not ok):
+                    bound[k] = (ok, None if ok else d)
     for key in sorted(res):
         ok, detail = res[key]
-        rep.inst(R_LAY, ctxt['callee'], key, ok, where_fn(f), detail)
-    for k2 in sorted(mag):
-        ok, detail = mag[k2]
-        rep.inst(R_MAG, ctxt['callee'], '%%%s: %s' % (conv, k2), ok, where_fn(f), detail)
-    return lay
-
-
-def is_const_precision(mod, ctxt, n):
-    """parameter n of the routine receives the precision in the other calls (same position as role 'p' elsewhere)"""
-    return ctxt['callee'] == 'print_i' and n == 5
+        rep.inst('R-SLAYOUT', ctxt['callee'], key, ok, where_fn(f), detail)
+    for k in sorted(bound):
+        ok, detail = bound[k]
+        rep.inst('R-SBOUND', ctxt['callee'], '%%s: %s' % k, ok, where_fn(f), detail)
+    pcacc_rule(rep, 'R-PCACC', lay, conv)
+    import_obligs(rep, sx, {'count-nonneg': 'R-EMITCOUNT', 'emit-read': 'R-IBUF', 'local-store': 'R-IBUF'})
+    return rep.items
 
 
 def import_obligs(rep, sx, mapping, fname_filter=None):
@@ -248,25 +728,98 @@ def pcacc_rule(rep, rule, lay, label):
     bad = [(s, rv) for ok, s, rv in lay.pcacc() if not ok]
     ok = not bad and len(lay.rets) > 0
     rep.inst(rule, lay.f.name, 'return value == number of output callbacks (%s)' % label, ok, where_fn(lay.f),
-             None if ok else 'on some path the routine returns %r after %r callback calls'
-             % (bad[0][1], bad[0][0].E) if bad else 'no path reaches a return')
+             None if ok else ('on some path the routine returns %r after %r callback calls'
+                              % (bad[0][1], bad[0][0].E) if bad else 'no path reaches a return'))
+
+
+# ----------------------------------------------------------------------------------------------
+# driver
+# ----------------------------------------------------------------------------------------------
+_G = {}
+
+
+def _task(name):
+    kind = name[0]
+    mod, T, D, facts, repo = _G['mod'], _G['T'], _G['D'], _G['facts'], _G['repo']
+    try:
+        if kind == 'int':
+            return ('ok', int_layout(mod, T, D, facts, name[1]))
+        if kind == 'str':
+            return ('ok', str_layout(mod, T, D, facts, name[1]))
+        if kind == 'top':
+            r = Rec()
+            toplevel_rule(r, mod, T, D)
+            return ('ok', r.items)
+        if kind == 'wrap':
+            r = Rec()
+            c06_wrap.wrapper_rules(r, repo)
+            return ('ok', r.items)
+    except AnalysisBroken as e:
+        return ('broken', str(e))
+    raise AnalysisBroken('unknown task %r' % (name,))
 
 
 def run(rep, repo, tier):
-    rep.explanation = 'C06 (work in progress)'
     mod = unit(repo)
-    rep.units.append(SRC)
+    rep.units += [SRC] + c06_wrap.UNITS
     T = parser_tables(mod)
-    loopvar_rule(rep, 'R-LOOPVAR', mod, ['__printf', 'print_i', 'print_s'])
-    na, nl = cursor_rule(rep, 'R-CURSOR', mod)
-    opsbits_rule(rep, 'R-OPSBITS', mod, T)
-    sites = vaarg_sites(mod, T)
-    vaarg_rule(rep, 'R-VAARG', mod, T, sites)
     D = dispatch(mod)
-    done = set()
+    loopvar_rule(rep, 'R-LOOPVAR', mod, ['__printf'] + sorted(n for n in emitter_functions(mod) if n != 'print_f'))
+    cursor_rule(rep, 'R-CURSOR', mod)
+    opsbits_rule(rep, 'R-OPSBITS', mod, T)
+    vaarg_rule(rep, 'R-VAARG', mod, T, D, vaarg_sites(mod, T))
+    percent_rule(rep, 'R-PERCENT', mod, D)
+    wide_rule(rep, 'R-WIDE', mod, T, D)
+    facts, pr = parser_rules(rep, mod, T, D)
+    literal_rule(rep, 'R-LITERAL', mod, D, pr)
+    # integer conversions that reach the same routine with the same constants are analysed once
+    groups = {}
     for conv in 'diuoxXp':
-        lay = int_layout_rule(rep, ('R-ILAYOUT', 'R-IMAG'), mod, T, D, conv)
-        if lay is not None and id(lay) not in done:
-            done.add(id(lay))
-            pcacc_rule(rep, 'R-PCACC', lay, conv)
-            import_obligs(rep, lay.sx, {'count-nonneg': 'R-EMITCOUNT', 'digit-store': 'R-IBUF', 'emit-read': 'R-IBUF'})
+        ctxt = call_context(mod, D, T, conv)
+        if ctxt is None:
+            rep.inst('R-ILAYOUT', '__printf', '%%%s calls one formatting routine' % conv, False, where_fn(mod.fn('__printf')),
+                     'conversion %r does not lead to exactly one call of a formatting routine' % conv)
+            continue
+        k = (ctxt_key(ctxt), conv in 'di', ISO_BASE[conv], conv == 'p')
+        groups.setdefault(k, []).append(conv)
+    tasks = [('int', tuple(g)) for g in groups.values()] + [('str', 's'), ('str', 'c'), ('top',), ('wrap',)]
+    _G.update(mod=mod, T=T, D=D, facts=facts, repo=repo)
+    nproc = min(len(tasks), max(1, (os.cpu_count() or 2) - 1))
+    if nproc > 1 and not os.environ.get('VERIF_C06_SERIAL'):
+        with multiprocessing.get_context('fork').Pool(nproc) as pool:
+            results = pool.map(_task, tasks, chunksize=1)
+    else:
+        results = [_task(t) for t in tasks]
+    for t, (st, payload) in zip(tasks, results):
+        if st != 'ok':
+            raise AnalysisBroken('%r: %s' % (t, payload))
+        for it in payload:
+            rep.inst(*it[:6], nontrivial=it[6], fact=it[7])
+    for rule, n in (('R-LOOPVAR', 12), ('R-CURSOR', 15), ('R-OPSBITS', 18), ('R-VAARG', 25), ('R-PERCENT', 1), ('R-WIDE', 1),
+                    ('R-STAR', 4), ('R-FIELD', 3), ('R-LITERAL', 1), ('R-ILAYOUT', 100), ('R-IMAG', 15), ('R-DIGITCHR', 9),
+                    ('R-SLAYOUT', 6), ('R-SBOUND', 1), ('R-PCACC', 5), ('R-EMITCOUNT', 8), ('R-IBUF', 3), ('R-WRAP', 10)):
+        rep.floor(rule, n)
+    rep.assumptions += [
+        'LP64 target (the IR is produced for x86-64 Linux): long, long long, intmax_t, size_t, ptrdiff_t are 64 bits wide',
+        'integers are mathematical in the layout models: width, precision and the character count stay below INT_MAX',
+        'directive grammar %[flags][width][.precision][length]conversion: a numeric field is a run of digits (atoi of it is '
+        'non-negative, and 0 when the text does not start with a digit), the character after a * width is not a digit',
+        'the digit generation loop do { *--p = digit(u % base); u /= base; } while (u) is summarised by its trip count '
+        '(number of base-b digits of u); its shape is recognised structurally, the stored character per remainder is checked',
+        'undefined directives are not judged: precision with %c, flags # and 0 with c/s, %lc, unknown conversion letters',
+        'print_f (%f %e %g %a) belongs to property C13: here it is only assumed to return the number of callbacks it made',
+    ]
+    rep.explanation = (
+        'Decided for every directive of the grammar and every argument value (symbolically, no enumeration of values): '
+        'the parser maps each flag / length character to its own bit, fetches every argument with the C type of its length '
+        'modifier, turns literal and * fields into the width and precision ISO C prescribes (negative * width = left-justify, '
+        'negative * precision = none), never moves the format cursor past the terminator and every loop has an exit test '
+        'that changes; the formatting routines, executed symbolically per conversion with the constants of their call site, '
+        'emit exactly the ISO C layout (padding, sign, prefix, precision zeros, digits, left/right justification) in every '
+        'case of the flag/width/precision/value split, generate digits from the full 64-bit magnitude in the right base with '
+        'the right digit characters, stay inside the digit buffer, never count an emission loop down from a negative value, '
+        'return the number of callbacks made; %s never scans the argument beyond the precision; __printf returns the total '
+        'number of callbacks; the libc wrappers store through an advancing cursor, terminate the string, forward format, '
+        'arguments and the count, and snprintf honours its size.  Not decided: the floating conversions (C13), %n, the wide '
+        'forms %lc/%ls beyond the fact that the l bit is ignored (reported), arithmetic overflow of int counters for fields '
+        'wider than INT_MAX, and that the callback itself behaves.')
